@@ -50,9 +50,14 @@ void Stats::sample(const std::string &s, bool nt)
 {
 	std::string t = s.size() > 1500 ? s.substr(0, 1500) + "..." : s;
 	auto &v = nt ? samples_nt : samples_tr;
-	size_t cap = nt ? 4 : 1;
-	if (v.size() < cap) v.push_back(t);
-	else if (nt && (evaluations % 997) == 0) v[cap - 1] = t;   // keep one late sample too
+	size_t cap = nt ? 5 : 1;
+	// log-spaced sampling: cases number 1, 10, 100, 1000, ... of each kind
+	uint64_t &n = nt ? n_seen_nt : n_seen_tr;
+	n++;
+	uint64_t p = 1; bool hit = false;
+	for (int k = 0; k < 12; k++, p *= 10) if (n == p) hit = true;
+	if (!hit) return;
+	if (v.size() < cap) v.push_back(t); else v[cap - 1] = t;
 }
 
 void Stats::add(const CaseResult &r, const Tape &t)
